@@ -17,8 +17,8 @@ ASSUMPTIONS = ["single consumer: no access is issued while another one is outsta
                "the library asserts 'Destroy of pending future'); the check rejects such ops",
                "needs the guarded hook gen_block in generator::next_sync (hooks/gen.patch); without it blocked accesses are detected by a 400 ms timeout"]
 
-STYLES0 = [0, 1, 2, 3, 4, 5]
-STYLES1 = [0, 2, 3, 4, 5]
+STYLES0 = [0, 1, 2, 3, 4, 5, 6]
+STYLES1 = [0, 2, 3, 4, 5, 6]
 
 
 def gen_script(rng, ha, n, pend_p, end_kind):
@@ -91,7 +91,7 @@ def close_case(c):
     live = True
     for o in ops[1:]:
         if not o or not live: continue
-        if o[0] == 1 and len(o) == 3 and waiting is None and 0 <= o[1] <= 5 and not (ha and o[1] == 1):
+        if o[0] == 1 and len(o) == 3 and waiting is None and 0 <= o[1] <= 6 and not (ha and o[1] == 1):
             if not sim.ended:
                 kind, k = sim.advance()
                 waiting = k if kind == "pend" else None
@@ -182,9 +182,13 @@ def gen(seed, tier):
                         def random(self): return 0.99
                         def randint(self, a, c): return rng.randint(a, c)
                     cases.append(gen_case(R(), eng, "x%d" % b, styles, sc, 7, None, False)); b += 1
+    # smoke engine: the same bodies with the frame in a reusable_storage
+    for k, sc in enumerate(FIXED_SCRIPTS):
+        cases.append(gen_case(rng, "gens", "s%d" % k, STYLES0, sc, 8, rng.choice([None, 1, 2]), False))
     n = 260 if quick else 3500
     for i in range(n):
         eng = "gen0" if i % 2 == 0 else "gen1"
+        if i % 10 == 9: eng = "gens"
         ha = eng == "gen1"
         styles_all = STYLES1 if ha else STYLES0
         mode = rng.random()
